@@ -118,6 +118,7 @@ type gen struct {
 	labels             map[string]bool
 	transferInLoopDeep bool
 	multiTrue          bool
+	trailSemi          bool
 }
 
 func (g *gen) pick(n int, w string) int { return rapid.IntRange(0, n-1).Draw(g.t, w) }
@@ -350,6 +351,10 @@ func (g *gen) program() *zn.Program {
 		case 1:
 			p.Body = append(p.Body, &zn.ClassDef{Name: "尾型", Props: []zn.Prop{{Name: "值", Init: numE(6)}}})
 			g.labels["declaration-after-final-expression"] = true
+		case 2:
+			// a statement separator after the last statement separates it from nothing
+			g.trailSemi = true
+			g.labels["separator-after-final-expression"] = true
 		}
 	}
 	return p
@@ -360,6 +365,9 @@ func TestFlow(t *testing.T) {
 		g := &gen{t: t, labels: map[string]bool{}}
 		p := g.program()
 		src, _ := zn.Render(p, nil)
+		if g.trailSemi {
+			src = strings.TrimRight(src, "\n") + "；"
+		}
 		ref := zn.NewInterp().Run(p)
 		if ref.Exhausted {
 			h.R.Skip("reference budget exhausted (generator produced a too long run)")
